@@ -39,7 +39,9 @@ SIG_MUTEX_STALE = "batteries.ReplLockManager:stale-stamp-mutex"
 SIG_MUTEX_SNAPSHOT = "batteries.ReplLockManager:mutex-broken-after-snapshot"
 SIG_FAILED_KEPT = "batteries.ReplLockManager.tryAcquire:failed-acquire-kept"
 SIG_TWO_TOLD = "batteries.ReplLockManager.tryAcquire:two-clients-told-they-hold"
+SIG_RELEASED_KEPT = "batteries.ReplLockManager.release:released-lock-kept"
 NAMES = ["a", "b", "c"]
+SLOW_RAFT = (2.0, 3.5)      # raft timeouts (s) of the schedules in which a link is slow for a while without an election
 
 
 class _RandomShim(object):
@@ -54,8 +56,9 @@ class _RandomShim(object):
 
 
 class Cluster(object):
-    def __init__(self, repo, U, seed, use_batch=True, dumpdir=None):
+    def __init__(self, repo, U, seed, use_batch=True, dumpdir=None, raft_timeouts=(0.5, 1.5)):
         self.dumpdir = dumpdir
+        self.raft_timeouts = raft_timeouts
         self.use_batch = use_batch
         self.bat = lc.load_batteries(repo)
         import pysyncobj.syncobj as so
@@ -75,6 +78,9 @@ class Cluster(object):
         self.patch.__enter__()
         self.trs, self.q, self.up = {}, {}, set()
         self.frozen = set()                    # nodes whose process is stopped: no ticks, nothing delivered
+        self.hold = set()                      # channels (src, dst) on which messages wait (slow link)
+        self.calls = dict((n, []) for n in NAMES)   # per client, in call order: ("try", l, rec) / ("rel", l, event no)
+        self.evno = 0
         self.submitted = dict((n, []) for n in NAMES)    # abstract cmds in submission order
         self.applied = dict((n, []) for n in NAMES)      # (abstract cmd, return value) in apply order
         self.answers = []
@@ -138,7 +144,8 @@ class Cluster(object):
         kw = {}
         if self.dumpdir is not None:
             kw = dict(fullDumpFile=os.path.join(self.dumpdir, n + ".dump"), useFork=False)
-        conf = self.SyncObjConf(autoTick=False, raftMinTimeout=0.5, raftMaxTimeout=1.5, appendEntriesPeriod=0.125,
+        conf = self.SyncObjConf(autoTick=False, raftMinTimeout=self.raft_timeouts[0], raftMaxTimeout=self.raft_timeouts[1],
+                                appendEntriesPeriod=0.125,
                                 appendEntriesUseBatch=self.use_batch, dynamicMembershipChange=False, **kw)
         self.by_impl[id(mgr._consumer())] = n
         obj = self.SyncObj(self.Node(n), [self.Node(o) for o in NAMES if o != n], conf=conf, consumers=[mgr],
@@ -250,7 +257,7 @@ class Cluster(object):
         for _ in range(50):
             moved = False
             for key in sorted(self.q):
-                if key[1] in self.frozen:
+                if key[1] in self.frozen or key in self.hold:
                     continue
                 while self.q[key]:
                     self.deliver_one(*key)
@@ -283,8 +290,10 @@ class Cluster(object):
         att = self.clock.now
         rec = {"client": n, "l": l, "att": att}
 
+        self.calls[n].append(("try", l, rec))
+
         def cb(r, e, rec=rec):
-            rec["ans"], rec["err"], rec["at"] = r, e, self.clock.now
+            rec["ans"], rec["err"], rec["at"], rec["ans_ev"] = r, e, self.clock.now, self.evno
             self.hit("answer.%s" % ("true" if r is True else "false" if r is False else "none"))
             if r is True and 2 * (self.clock.now - att) > self.U:
                 self.viols.append({"signature": "batteries.ReplLockManager.tryAcquire:late-acquire-kept",
@@ -292,6 +301,10 @@ class Cluster(object):
                                            % (l, n, att, self.clock.now, self.U)})
         self.answers.append(rec)
         self.mgrs[n].tryAcquire(lc.lock_name(l), callback=cb)
+
+    def release(self, n, l):
+        self.calls[n].append(("rel", l, self.evno))
+        self.mgrs[n].release(lc.lock_name(l))
 
     def prolong_pass(self, n):
         lc.tick_once(self.bat, self.mgrs[n], self.clock)
@@ -335,22 +348,42 @@ class Cluster(object):
             elif entitled:
                 self.hit("told-true.1")
             for n in hs:
-                # told failed => not kept (D73): every tryAcquire of this client for l was answered with a failure,
-                # one of the acquires was committed more than U/2 after its attempt, and the client holds
+                if any(kd == "restart" for _, kd, _ in self.marks[n]):
+                    continue                        # a new process does not remember what it was told
                 i = NAMES.index(n) + 1
-                att = [a for a in self.answers if a["client"] == n and a["l"] == l]
-                if att and all("ans" in a and a["ans"] is not True for a in att) and \
-                        any(a["ans"] is None and 2 * (self.first_applied.get(("acq", l, i, a["att"]), a["att"]) - a["att"]) > self.U
-                            for a in att):
+                calls = [x for x in self.calls[n] if x[1] == l]
+                if not calls:
+                    continue
+                last_rel = max([j for j, x in enumerate(calls) if x[0] == "rel"] + [-1])
+                att = [x[2] for x in calls[last_rel + 1:] if x[0] == "try"]
+                before = [x[2] for x in calls[:last_rel + 1] if x[0] == "try"]
+                cmds = [c for c, _ in common_sequence(self)]
+                if att and all("ans" in a and a["ans"] is not True for a in att):
+                    # told failed => not kept (D73), judged on the tryAcquire calls since the client's last release call;
+                    # literal clause: answer or commit more than U/2 after the attempt, outcome reported as open
+                    late = [a for a in att if a["ans"] is None and ("acq", l, i, a["att"]) in cmds and
+                            2 * (max(a["at"], self.first_applied.get(("acq", l, i, a["att"]), a["att"])) - a["att"]) > self.U]
+                    if not late:
+                        continue
                     self.hit("held.by-client-told-failed")
-                    cmds = [c for c, _ in common_sequence(self)]
-                    overtaken = any(lc.release_overtaken(self.sub_seq[n], cmds, l, i, a["att"]) for a in att if a["ans"] is None)
+                    overtaken = any(lc.release_overtaken(self.sub_seq[n], cmds, l, i, a["att"]) for a in late)
                     self.viols.append({"signature": SIG_FAILED_KEPT + (":compensating-release-overtaken" if overtaken else ""),
                                        "what": "cluster: at lock-clock %d client %s considers L%d held (no release of its own outstanding) "
-                                               "although every one of its tryAcquire calls was answered with a failure %s and the acquire "
-                                               "of one reported as failed with an open outcome was committed more than U/2 after its attempt; table %s"
+                                               "although every tryAcquire it made since its last release call was answered with a failure "
+                                               "(stamp, answer, error, time of the answer) %s and for one reported as failed with an open outcome "
+                                               "the answer or the commit came more than U/2 after the attempt; table %s; common sequence %s"
                                                % (self.clock.now, n, l, [(a["att"], a.get("ans"), a.get("err"), a.get("at")) for a in att],
-                                                  lc.table_of(self.mgrs[n]._consumer()))})
+                                                  lc.table_of(self.mgrs[n]._consumer()), [lc.cmd_str(x) for x in cmds][-8:])})
+                    return
+                if not att and last_rel >= 0 and all("ans" in a and a["ans_ev"] < calls[last_rel][2] for a in before):
+                    overtaken = any(a["ans"] is None and lc.release_overtaken(self.sub_seq[n], cmds, l, i, a["att"]) for a in before)
+                    self.hit("held.after-own-release")
+                    self.viols.append({"signature": (SIG_FAILED_KEPT + ":compensating-release-overtaken") if overtaken else SIG_RELEASED_KEPT,
+                                       "what": "cluster: at lock-clock %d client %s considers L%d held although its last call for that lock was "
+                                               "release() (every earlier tryAcquire had been answered, no release of its own is outstanding); "
+                                               "table %s; the client submitted %s; common sequence %s"
+                                               % (self.clock.now, n, l, lc.table_of(self.mgrs[n]._consumer()),
+                                                  [lc.cmd_str(x) for x in self.sub_seq[n]][-6:], [lc.cmd_str(x) for x in cmds][-8:])})
                     return
             if hs:
                 self.hit("held.%d" % min(2, len(hs)))
@@ -446,6 +479,39 @@ def stall_schedule(rng, U):
     return ev
 
 
+def stale_belief_schedule(rng, U):
+    """directed: follower Y holds L1; it calls release(L1) and at once tryAcquire(L1); both reach the leader and are
+    committed; the leader's answers to Y are lost (connection Y-leader drops); Y's election timer fires:
+    callback(None, LEADER_CHANGED), more than U/2 after the attempt.  Y was told it failed: it must not keep the lock."""
+    ev = [("run", 40), ("roles_follower_holds",), ("try_role", "Y", 1), ("run", 8)]
+    for _ in range(rng.randrange(0, 2)):
+        ev += [("adv", max(1, U // 4)), ("tick_role", "Y"), ("run", 4)]
+    ev += [("adv", 1), ("rel_role", "Y", 1), ("try_role", "Y", 1), ("lose_answers", "Y"), ("adv", U // 2 + 1), ("run", 60),
+           ("reconnect_role", "Y"), ("run", 40)]
+    for _ in range(rng.randrange(2, 5)):
+        ev += [("adv", max(1, U // 4)), ("tick_role", "Y"), ("run", 6)]
+        if rng.random() < 0.5:
+            ev += [("try_role", "Z", 1), ("run", 8)]
+    return ev
+
+
+def lagging_release_schedule(rng, U):
+    """directed: follower Y holds L1 and prolongs every < U/2; the link leader -> Y is slow (messages wait) while the
+    lock clock advances by more than U: Y's prolongations are committed by the others, Y's own replica still shows
+    the old time, so locally the lock looks expired; Y calls release(L1); the link recovers; Y lives on."""
+    step = max(1, U // 2 - 1)
+    ev = [("run", 140), ("roles_follower_holds",), ("try_role", "Y", 1), ("run", 8), ("slow_link_to", "Y")]
+    elapsed = 0
+    while elapsed <= U + 1:
+        ev += [("adv", step), ("tick_role", "Y"), ("run", 4)]      # raft timeouts of this schedule are 2..4 s: no election
+        elapsed += step
+    ev += [("rel_role", "Y", 1), ("run", 1), ("link_ok",), ("run", 12)]
+    for _ in range(rng.randrange(2, 4)):
+        ev += [("adv", step), ("tick_role", "Y"), ("run", 6)]
+    ev += [("try_role", "Z", 1), ("run", 8), ("adv", 0)]
+    return ev
+
+
 def snapshot_schedule(rng, U):
     """directed: Y (the leader) holds L1 and prolongs every < U/2; variant `install`: follower Z is frozen, the
     leader compacts, Z thaws and is caught up by the leader's snapshot; variant `restart`: Z compacts (writes
@@ -492,20 +558,21 @@ def in_time(cl, U, l=1):
     return all(0 <= 2 * (b - a) < U for a, b in zip(stamps, stamps[1:]))
 
 
-def execute(repo, U, seed, evs, use_batch=True, nlk=2, dumps=False):
+def execute(repo, U, seed, evs, use_batch=True, nlk=2, dumps=False, raft_timeouts=(0.5, 1.5)):
     dumpdir = tempfile.mkdtemp(prefix="pso-verif-locks-") if dumps else None
     try:
-        return _execute(repo, U, seed, evs, use_batch, nlk, dumpdir)
+        return _execute(repo, U, seed, evs, use_batch, nlk, dumpdir, raft_timeouts)
     finally:
         if dumpdir is not None:
             shutil.rmtree(dumpdir, ignore_errors=True)
 
 
-def _execute(repo, U, seed, evs, use_batch, nlk, dumpdir):
-    cl = Cluster(repo, U, seed, use_batch=use_batch, dumpdir=dumpdir)
+def _execute(repo, U, seed, evs, use_batch, nlk, dumpdir, raft_timeouts=(0.5, 1.5)):
+    cl = Cluster(repo, U, seed, use_batch=use_batch, dumpdir=dumpdir, raft_timeouts=raft_timeouts)
     first = None
     try:
         for idx, ev in enumerate(evs):
+            cl.evno = idx
             k = ev[0]
             L = cl.leader()
             if k == "run":
@@ -516,7 +583,7 @@ def _execute(repo, U, seed, evs, use_batch, nlk, dumpdir):
                 cl.try_acquire(ev[1], ev[2])
                 cl.hit("try")
             elif k == "rel":
-                cl.mgrs[ev[1]].release(lc.lock_name(ev[2]))
+                cl.release(ev[1], ev[2])
                 cl.hit("release")
             elif k == "tick":
                 cl.prolong_pass(ev[1])
@@ -536,6 +603,38 @@ def _execute(repo, U, seed, evs, use_batch, nlk, dumpdir):
                 cl.roles = {"X": fol[0], "Z": fol[1], "Y": L if cl.rng.random() < 0.5 else fol[1]}
                 if cl.roles["Y"] == cl.roles["Z"]:
                     cl.roles["Z"] = L
+            elif k == "roles_follower_holds" and L:
+                fol = [n for n in NAMES if n != L]
+                cl.roles = {"Y": fol[0], "Z": fol[1], "L": L}
+            elif k == "lose_answers" and getattr(cl, "roles", None):
+                y, ld = cl.roles[ev[1]], cl.roles["L"]
+                cl.t += 0.0625
+                cl.tick(y)                                   # Y forwards what it has queued
+                while cl.deliver_one(y, ld):
+                    pass
+                cl.t += 0.0625
+                cl.tick(ld)                                  # the leader appends, answers, replicates
+                for o in NAMES:
+                    if o not in (y, ld):
+                        while cl.deliver_one(ld, o):
+                            pass
+                cl.disconnect(y, ld)                         # its answers (and append_entries) to Y are lost
+                cl.hit("answers-lost")
+            elif k == "reconnect_role" and getattr(cl, "roles", None):
+                cl.connect(cl.roles[ev[1]], cl.roles["L"])
+            elif k == "slow_link_to" and getattr(cl, "roles", None):
+                cl.hold.add((cl.roles["L"], cl.roles[ev[1]]))
+                cl.hit("slow-link")
+            elif k == "link_ok":
+                cl.hold.clear()
+            elif k == "rel_role" and getattr(cl, "roles", None):
+                n = cl.roles[ev[1]]
+                live = any(e[0] == ev[2] and e[1] == NAMES.index(n) + 1 and cl.clock.now < e[2] + U
+                           for o in NAMES if o != n for e in lc.table_of(cl.mgrs[o]._consumer()))
+                if live and not cl.mgrs[n]._consumer().isAcquired(lc.lock_name(ev[2]), lc.client_name(NAMES.index(n) + 1), cl.clock.now):
+                    cl.hit("release.while-local-replica-shows-lock-expired")
+                cl.release(n, ev[2])
+                cl.hit("release")
             elif k == "roles_leader_holds" and L:
                 fol = [n for n in NAMES if n != L]
                 cl.roles = {"Y": L, "Z": fol[0], "X": fol[1]}
@@ -819,6 +918,26 @@ def run(ctx):
             if sig not in [x["signature"] for x in viols] and len(viols) < 5:
                 viols.append({"signature": sig, "what": "[directed stall schedule] " + v["what"],
                               "replay": {"kind": "cluster-stall", "U": U, "seed": seed}})
+    # directed: release + retry told LEADER_CHANGED (stale local belief); release on a lagging replica
+    for kind, gen in (("stale-belief", stale_belief_schedule), ("lagging-release", lagging_release_schedule)):
+        for i in range(ctx.scale(15, 300)):
+            U = rng.choice((8, 10, 12))
+            seed = rng.randrange(10 ** 6)
+            out = execute(ctx.repo, U, seed, gen(_random.Random(seed), U), raft_timeouts=SLOW_RAFT if kind == "lagging-release" else (0.5, 1.5))
+            cases += 1
+            seen.add("%s-%d-%d" % (kind, U, seed))
+            for k, v in out["cov"].items():
+                cov[kind + "." + k] = cov.get(kind + "." + k, 0) + v
+            d = prefix_check(U, out)
+            if d and len(disagreements) < 3:
+                disagreements.append(d)
+            mb.add(U, out, {"schedule": kind, "seed": seed})
+            if out["viols"]:
+                v = out["viols"][0]
+                sig = v["signature"] or SIG_MUTEX
+                if sig not in [x["signature"] for x in viols] and len(viols) < 6:
+                    viols.append({"signature": sig, "what": "[directed %s schedule] %s" % (kind, v["what"]),
+                                  "replay": {"kind": "cluster-" + kind, "U": U, "seed": seed}})
     # directed `snapshot` schedules (real dump files, forced compaction, install on a lagging node, restart)
     for i in range(ctx.scale(30, 500)):
         U = rng.choice((4, 8, 10))
@@ -877,7 +996,8 @@ def run(ctx):
             "snap.snapshot.install.while-another-clients-lock-is-held", "snap.expect.competitor-refused",
             "snap.expect.holder-still-holds", "model.snapshot-positions-matched",
             "stall.expect.competitor-granted-after-expiry", "stall.expect.stalled-holder-does-not-hold",
-            "stall.pro.expires-lock.of-the-prolonging-holder"]
+            "stall.pro.expires-lock.of-the-prolonging-holder", "stale-belief.answers-lost", "stale-belief.answer.none",
+            "lagging-release.slow-link", "lagging-release.release.while-local-replica-shows-lock-expired"]
     missing = [k for k in need if not cov.get(k)]
     if missing and not viols:
         res["inconclusive"] = "coverage floor missed: " + ",".join(missing)
@@ -921,6 +1041,10 @@ def replay(ctx, violation):
         out = execute(ctx.repo, rp["U"], rp["seed"], d19_schedule(rp["U"]), use_batch=False)
     elif rp["kind"] == "cluster-snapshot":
         out = execute(ctx.repo, rp["U"], rp["seed"], snapshot_schedule(_random.Random(rp["seed"]), rp["U"]), dumps=True)
+    elif rp["kind"] == "cluster-stale-belief":
+        out = execute(ctx.repo, rp["U"], rp["seed"], stale_belief_schedule(_random.Random(rp["seed"]), rp["U"]))
+    elif rp["kind"] == "cluster-lagging-release":
+        out = execute(ctx.repo, rp["U"], rp["seed"], lagging_release_schedule(_random.Random(rp["seed"]), rp["U"]), raft_timeouts=SLOW_RAFT)
     elif rp["kind"] == "cluster-stall":
         out = execute(ctx.repo, rp["U"], rp["seed"], stall_schedule(_random.Random(rp["seed"]), rp["U"]))
     elif rp["kind"] == "cluster-stale":
